@@ -25,6 +25,7 @@ EXPLANATION = (
     "rebuilt through term_from_key (label codec), and the file is dumped with exclude_none only / parsed through "
     "AOEFObject. Value-level fidelity "
     "of pydantic's JSON codec and the n-cycle fixpoint are not decided here."
+    'The audio-directory flow rules of C18 (R18.1 / R18.2) are run as necessary conditions of the round trip with an audio directory. '
 )
 ASSUMPTIONS = [
     "pydantic's JSON codec round-trips float/datetime/Path/UUID values (trusted, not analysed)",
